@@ -111,7 +111,10 @@ def shrink(prop, case, want, budget_s=60.0):
     t0 = time.time()
     cur = case
     while time.time() - t0 < budget_s:
-        cands = list(prop.shrink_candidates(cur))
+        try:
+            cands = list(prop.shrink_candidates(cur))
+        except Exception:
+            break
         if not cands:
             break
         cands = cands[:64]
